@@ -286,6 +286,32 @@ func Program(t *rapid.T, f PFlags) Prog {
 		}
 		forms = append(forms, call("trace!", outer))
 	}
+	// one quoted literal is the first part of two grown values that are both kept
+	if Chance(t, "shared-stem", 6) {
+		g.use("shared-stem")
+		n := []int{3, 5, 6, 7, 2, 4}[g.pick("stemlen", 6)]
+		xs := make([]val.V, n)
+		for i := range xs {
+			xs[i] = val.I(i)
+		}
+		stem := val.V{K: val.List, L: xs}
+		if g.chance("stemvec", 3) {
+			stem.K = val.Vec
+			forms = append(forms, call("def", sym("st"), stem))
+		} else {
+			forms = append(forms, call("def", sym("st"), call("quote", stem)))
+		}
+		grow := func(k int) val.V {
+			switch {
+			case g.f.QQ && g.chance("stemqq", 2):
+				return call("quasiquote", lst(call("splice-unquote", sym("st")), val.I(k)))
+			case g.chance("stemconj", 3) && stem.K == val.Vec:
+				return call("conj", sym("st"), val.I(k))
+			}
+			return call("concat", sym("st"), call("list", val.I(k)))
+		}
+		forms = append(forms, call("def", sym("s1"), grow(1)), call("def", sym("s2"), grow(2)), call("trace!", call("list", sym("s1"), sym("s2"), sym("st"))))
+	}
 	// a macro that is re-defined between two evaluations of the same call site
 	if f.Macros && Chance(t, "macro-redef", 5) {
 		g.use("macro-redefinition")
@@ -716,6 +742,11 @@ func (g *pg) intExpr(d int, sc scope) val.V {
 
 // str draws a string literal's content.
 func (g *pg) str(label string) string {
+	if g.f.HotStr && g.chance(label+"multiline", 6) {
+		g.use("hot-string")
+		g.use("multi-line-string")
+		return rapid.SampledFrom([]string{"line one\r\nline two", "a\nb", "x\r\n", "\r\n\r\n", "{\"k\":\r\n 1}", "a\rb", "tab\tand\r\nCRLF; not a comment", "(\r\n", "\n;; $x 1\n"}).Draw(g.t, label+"ml")
+	}
 	if g.f.HotStr && !g.chance(label+"plain", 2) {
 		g.use("hot-string")
 		return Str(g.t, label+"hot", Opts{Str: StrHot, NoKwMark: true, NoNUL: true})
